@@ -103,6 +103,27 @@ func permutedTwin(t *rapid.T, c *gen.DocCase) (*jsonapi.Document, *jsonapi.URL, 
 				changed = true
 			}
 
+			// Included resources with the same ID (of different types) have
+			// no order of their own: they stay in the caller's order, so the
+			// twin keeps them in that order among themselves.
+			byID := map[string][]int{}
+			for pos, i := range p {
+				byID[c.Included[i].ID()] = append(byID[c.Included[i].ID()], pos)
+			}
+
+			for _, positions := range byID {
+				members := make([]int, len(positions))
+				for k, pos := range positions {
+					members[k] = p[pos]
+				}
+
+				sort.Ints(members)
+
+				for k, pos := range positions {
+					p[pos] = members[k]
+				}
+			}
+
 			idx = p
 		}
 
@@ -208,9 +229,27 @@ func TestC11Deterministic(t *testing.T) {
 	r := rec.For("C11Deterministic")
 
 	rapid.Check(t, prop(r, func(t *rapid.T) {
+		// One document in four may include resources of different types
+		// under one ID (short lists only: beyond a dozen members the order
+		// among equal IDs is the sorting algorithm's business).
 		o := docOpts
-		o.DistinctIncludedIDs = true
+		o.DistinctIncludedIDs = rapid.IntRange(0, 3).Draw(t, "sameids") != 0
 		c := gen.Document(t, o)
+
+		if len(c.Included) > 12 {
+			seen := map[string]bool{}
+			inc, docInc := c.Included[:0:0], c.Doc.Included[:0:0]
+
+			for i, m := range c.Included {
+				if !seen[m.ID()] {
+					inc, docInc = append(inc, m), append(docInc, c.Doc.Included[i])
+				}
+
+				seen[m.ID()] = true
+			}
+
+			c.Included, c.Doc.Included = inc, docInc
+		}
 
 		doc2, url2, changed := permutedTwin(t, c)
 
